@@ -8,7 +8,7 @@ from core import nats, opt, exc_kind, REPO, safe_check
 import taxutil as T
 
 PROPS = ('GambitV.Props.C09', 'GambitV.C09')
-TIE = [('GambitV.Tie.PyClassify', 'GambitV.Tie.Py'), ('GambitV.Tie.PyResultItem', 'GambitV.Tie.Py'), ('GambitV.Tie.PyPropsC09', 'GambitV.Tie.Py'), ('GambitV.Tie.PyQueryFlow', 'GambitV.Tie.Py'), ('GambitV.Tie.PyClassifyDefaults', 'GambitV.Tie.Py')]
+TIE = [('GambitV.Tie.PyClassify', 'GambitV.Tie.Py'), ('GambitV.Tie.PyResultItem', 'GambitV.Tie.Py'), ('GambitV.Tie.PyPropsC09', 'GambitV.Tie.Py'), ('GambitV.Tie.PyQueryFlow', 'GambitV.Tie.Py'), ('GambitV.Tie.PyClassifyDefaults', 'GambitV.Tie.Py'), ('GambitV.Tie.PyResultClasses', 'GambitV.Tie.Py')]
 RULE = ('(float32 distance row, N = report_closest). Tie-heavy rows (1..4 distinct values, identical references), n in 1..3000, N in 1..n+3; '
         'rows of all-equal distances; random rows. Oracle = GambitV.closestOk (the list is the min(N,n)-prefix of the unique '
         '(distance, index)-sorted order) evaluated in Lean on the real closest_genomes list, its head = the real closest_match; each entry '
